@@ -130,6 +130,8 @@ def search(profile_name, prop, base_seed, runs, workers=None, max_secs=None,
         futs = [ex.submit(_worker, t) for t in tasks]
         try:
             for f in as_completed(futs, timeout=hard_timeout):
+                if f.cancelled():
+                    continue
                 merge(agg, f.result())
                 if stop_on_violation and len(agg['violations']) >= 1:
                     for g in futs:
